@@ -43,6 +43,8 @@ inductive Tr : Book → Book → Prop
       (∀ e ∈ es, e.2 = v.hash ∧ (e.1 = v.left ∨ e.1 = v.right) ∧ b.hasVertex e.1 = true ∧ e.1 ≠ v.hash) →
       -- unless the left parent is the zero hash (Go's `addedHash` sentinel) both declared parents are live and linked
       (v.left ≠ 0 → (v.left, v.hash) ∈ es ∧ (v.right, v.hash) ∈ es ∧ b.hasVertex v.left = true ∧ b.hasVertex v.right = true) →
+      -- a vertex whose left parent is the zero hash gets no edges at all
+      (v.left = 0 → es = []) →
       Tr b { b with index := b.index ++ [(v.trx.hash, v.hash)], verts := b.verts ++ [v], edges := b.edges ++ es }
   /-- roll-back after a failed AddEdge: the fresh vertex, its index entry and its edges disappear again -/
   | unlink {b} (h : Hash) : b.hasVertex h = false → Tr b { b with edges := b.edges.filter (fun e => e.1 != h && e.2 != h) }
@@ -190,7 +192,14 @@ theorem steps_insertLinked (b : Book) (v : Vertex) (pre : PreInsert b v) :
           subst ees
           have n1 := (hes _ m1).2.2.2
           have n2 := (hes _ m2).2.2.2
-          exact ⟨m1, m2, hlive _ n1 l1, hlive _ n2 l2⟩)
+          exact ⟨m1, m2, hlive _ n1 l1, hlive _ n2 l2⟩) (by
+          intro hl0
+          have hb4 := h4
+          simp only [linkNew, hl0, beq_self_eq_true, ↓reduceIte, Option.some.injEq] at hb4
+          have := congrArg Book.edges hb4
+          simp only at this
+          have h5 : b.edges ++ [] = b.edges ++ es := by rw [List.append_nil]; exact this
+          exact (List.append_cancel_left h5).symm)
         exact Steps.single this
 
 /-! ### frame: what no transition changes -/
@@ -200,7 +209,7 @@ theorem Tr.frame {b b' : Book} (t : Tr b b') :
   cases t with
   | misc h => exact ⟨h.2.2.2.2.2.2.2.1, h.2.2.2.2.2.1, h.2.2.2.2.2.2.1, h.2.2.2.1, h.2.2.2.2.1⟩
   | drop v hv => simp
-  | insert v es ok hes hcomp => simp
+  | insert v es ok hes hcomp hzero => simp
   | unlink h hh => simp
 
 theorem Steps.frame {b b' : Book} (s : Steps b b') :
